@@ -34,6 +34,7 @@ func checkC14(ctx *Ctx, r *Report) {
 	c14ValueGuards(ctx, r)
 	c14DateTimeFormatter(ctx, r)
 	c14FourthRound(ctx, r)
+	c14FifthRound(ctx, r)
 	c02GoRuntimeDefines(ctx, r)
 }
 
@@ -72,6 +73,70 @@ func c14FreshGenerator(ctx *Ctx, r *Report) {
 	r.Floor("FromBuilder call sites", 3)
 }
 
+// isPermutedCopyOfOptions: e is a local slice that holds every option of a builder, in another order — it is defined
+// as `append([]T(nil), X.Options...)` and the only other things done to it in the function are reads and calls of
+// sort.Slice / sort.SliceStable / sort.Sort on it. No element is dropped or added.
+func isPermutedCopyOfOptions(info *types.Info, fd *ast.FuncDecl, e ast.Expr) bool {
+	id, ok := ast.Unparen(e).(*ast.Ident)
+	if !ok {
+		return false
+	}
+	obj := objOf(info, id)
+	if obj == nil {
+		return false
+	}
+	defined, okAll := false, true
+	ast.Inspect(fd.Body, func(n ast.Node) bool {
+		as, ok := n.(*ast.AssignStmt)
+		if !ok {
+			return true
+		}
+		for i, l := range as.Lhs {
+			// a write through an index (`options[i] = …`) or a new value for the slice
+			target := ast.Unparen(l)
+			if ix, ok := target.(*ast.IndexExpr); ok {
+				target = ast.Unparen(ix.X)
+			}
+			lid, ok := target.(*ast.Ident)
+			if !ok || objOf(info, lid) != obj {
+				continue
+			}
+			if as.Tok != token.DEFINE || defined || len(as.Rhs) != len(as.Lhs) {
+				okAll = false
+				continue
+			}
+			call, ok := ast.Unparen(as.Rhs[i]).(*ast.CallExpr)
+			if !ok || len(call.Args) != 2 || !call.Ellipsis.IsValid() {
+				okAll = false
+				continue
+			}
+			if fid, ok := call.Fun.(*ast.Ident); !ok || fid.Name != "append" {
+				okAll = false
+				continue
+			}
+			// first operand: an empty slice (`[]T(nil)`, `[]T{}`)
+			empty := false
+			switch first := ast.Unparen(call.Args[0]).(type) {
+			case *ast.CallExpr:
+				if len(first.Args) == 1 {
+					if nid, ok := first.Args[0].(*ast.Ident); ok && nid.Name == "nil" {
+						empty = true
+					}
+				}
+			case *ast.CompositeLit:
+				empty = len(first.Elts) == 0
+			}
+			if !empty || !strings.HasSuffix(exprString(call.Args[1]), ".Options") {
+				okAll = false
+				continue
+			}
+			defined = true
+		}
+		return true
+	})
+	return defined && okAll
+}
+
 func c14Generator(ctx *Ctx, r *Report, p *packages.Package) {
 	info := p.TypesInfo
 	method := func(name string) *ast.FuncDecl {
@@ -99,7 +164,7 @@ func c14Generator(ctx *Ctx, r *Report, p *packages.Package) {
 			if fn == nil {
 				return true
 			}
-			if fn.Name() == "Map" && len(c.Args) == 2 && strings.HasSuffix(exprString(c.Args[0]), ".Options") {
+			if fn.Name() == "Map" && len(c.Args) == 2 && (strings.HasSuffix(exprString(c.Args[0]), ".Options") || isPermutedCopyOfOptions(info, fd, c.Args[0])) {
 				if lit, ok := c.Args[1].(*ast.FuncLit); ok {
 					ast.Inspect(lit.Body, func(k ast.Node) bool {
 						if c2, ok := k.(*ast.CallExpr); ok {
@@ -990,4 +1055,168 @@ func c14FourthRound(ctx *Ctx, r *Report) {
 		r.Check(once, "flow/argument-printed-once", "languages.mappingForOption maps each argument once", fd.Pos(), "an assignment whose argument was already mapped is skipped",
 			"mappingForOption produces one printed argument per non-constant assignment: an option argument feeding two assignments (add_assignment) is printed twice — too many arguments in the emitted call")
 	}
+}
+
+// c14FifthRound — third hunt:
+//   - a choice between several builders (each guarded by the constants of its constructor) has an unguarded way out: a
+//     value that matches none of the constants is still converted, by one of the builders, through its options;
+//   - the fields of an envelope that the option sets from a constant are not arguments of the option;
+//   - an option records as "generated" the path its printed argument is read from, not the other paths the same
+//     argument is spread over (the options that write those are still needed), and options are converted in an order
+//     that puts the spreading ones first.
+func c14FifthRound(ctx *Ctx, r *Report) {
+	p := ctx.Pkg("internal/languages")
+	if p == nil {
+		return
+	}
+	info := p.TypesInfo
+	n := 0
+	// (a) templates
+	for _, lang := range []string{"golang", "php"} {
+		ts, err := loadTemplates(ctx, lang)
+		if err != nil {
+			r.Undecided("templates of %s: %v", lang, err)
+			continue
+		}
+		tree := ts.trees["prepare_arg"]
+		if tree == nil {
+			r.Undecided("anchor lost: %s template \"prepare_arg\"", lang)
+			continue
+		}
+		found, fallback := false, false
+		walkTmpl(tree.Root, func(q parse.Node) bool {
+			wn, ok := q.(*parse.WithNode)
+			if !ok || !strings.Contains(wn.Pipe.String(), ".BuilderDisjunction") {
+				return true
+			}
+			found = true
+			// a converter call printed outside the range over the guarded choices
+			for _, c := range wn.List.Nodes {
+				if _, isRange := c.(*parse.RangeNode); isRange {
+					continue
+				}
+				walkTmpl(c, func(k parse.Node) bool {
+					if an, ok := k.(*parse.ActionNode); ok && strings.Contains(an.String(), "Converter") {
+						fallback = true
+					}
+					return true
+				})
+			}
+			return false
+		})
+		if !found {
+			r.Undecided("anchor changed: %s template \"prepare_arg\" no longer reads .Arg.BuilderDisjunction", lang)
+			continue
+		}
+		n++
+		r.Check(fallback, "skeleton/builder-choice-total", lang+" converter template: choice between builders", token.NoPos, ts.file["prepare_arg"]+": a converter is called when none of the guarded choices holds",
+			ts.file["prepare_arg"]+": every choice between builders is guarded by the constants of its constructor and nothing is printed when none holds: a value with another constant ({\"kind\":\"hexagon\"} for builders initialised with \"square\" and \"circle\") is converted to an empty argument — Shape() does not compile, an element of a list disappears")
+	}
+	// (b) envelope constants
+	if fn := ctx.LookupMethod("internal/languages", "ConverterGenerator", "argumentsForEnvelope"); fn == nil {
+		r.Undecided("anchor lost: languages.ConverterGenerator.argumentsForEnvelope")
+	} else if fd, _ := ctx.DeclOf(fn); fd != nil {
+		skips := false
+		ast.Inspect(fd.Body, func(m ast.Node) bool {
+			rs, ok := m.(*ast.RangeStmt)
+			if !ok || !strings.HasSuffix(exprString(rs.X), ".Envelope.Values") {
+				return true
+			}
+			for _, st := range rs.Body.List {
+				is, ok := st.(*ast.IfStmt)
+				if !ok || !endsInExit(is.Body) {
+					continue
+				}
+				c := exprString(is.Cond)
+				if (strings.Contains(c, ".Value.Constant != nil") || strings.Contains(c, ".Value.Argument == nil")) && !strings.Contains(c, "&&") {
+					skips = true
+				}
+			}
+			return true
+		})
+		n++
+		r.Check(skips, "flow/envelope-constants-not-arguments", "languages.ConverterGenerator.argumentsForEnvelope", fd.Pos(), "the fields of an envelope set from a constant are skipped",
+			"argumentsForEnvelope prints one argument per field of the envelope, including the fields the option sets from a constant: with `Point: {kind: \"pt\", x: int64}` and struct_fields_as_arguments the converter prints Points(\"pt\", 1) for the option Points(x int64) — too many arguments")
+	}
+	// (c) generatedPaths
+	if fn := ctx.LookupMethod("internal/languages", "ConverterGenerator", "mappingForOption"); fn == nil {
+		r.Undecided("anchor lost: languages.ConverterGenerator.mappingForOption")
+	} else if fd, _ := ctx.DeclOf(fn); fd != nil {
+		var store, dedup token.Pos
+		ast.Inspect(fd.Body, func(m ast.Node) bool {
+			switch x := m.(type) {
+			case *ast.AssignStmt:
+				for _, l := range x.Lhs {
+					if ix, ok := ast.Unparen(l).(*ast.IndexExpr); ok && strings.HasSuffix(exprString(ix.X), ".generatedPaths") && !store.IsValid() {
+						store = x.Pos()
+					}
+				}
+			case *ast.IfStmt:
+				// `if _, mapped := mappedArguments[name]; mapped { continue }`
+				if as, ok := x.Init.(*ast.AssignStmt); ok && len(as.Rhs) == 1 && endsInExit(x.Body) {
+					if ix, ok := ast.Unparen(as.Rhs[0]).(*ast.IndexExpr); ok {
+						if _, isMap := info.TypeOf(ix.X).Underlying().(*types.Map); isMap && strings.Contains(exprString(ix.Index), ".Argument.Name") && !dedup.IsValid() {
+							dedup = x.Pos()
+						}
+					}
+				}
+			}
+			return true
+		})
+		if !store.IsValid() || !dedup.IsValid() {
+			r.Undecided("anchor changed: languages.ConverterGenerator.mappingForOption no longer stores into generatedPaths / no longer prints an argument once")
+		} else {
+			n++
+			r.Check(dedup < store, "flow/generated-path-is-read-path", "languages.ConverterGenerator.mappingForOption records generated paths", store, "a path is recorded as generated after the test that skips the secondary paths of an argument",
+				"mappingForOption records every path an option writes as generated, including the paths its argument is only spread over: with add_assignment(Outer.name: title = name) the option Title is taken for a duplicate of Name and never printed — {\"name\":\"a\",\"title\":\"b\"} is rebuilt with title \"a\"")
+		}
+	}
+	// (d) order
+	if fn := ctx.LookupMethod("internal/languages", "ConverterGenerator", "FromBuilder"); fn != nil {
+		if fd, _ := ctx.DeclOf(fn); fd != nil {
+			ordered := false
+			ast.Inspect(fd.Body, func(m ast.Node) bool {
+				c, ok := m.(*ast.CallExpr)
+				if !ok || len(c.Args) != 2 {
+					return true
+				}
+				f := callee(info, c)
+				if f == nil || f.Pkg() == nil || f.Pkg().Path() != "sort" || !strings.HasPrefix(f.Name(), "Slice") {
+					return true
+				}
+				if !isPermutedCopyOfOptions(info, fd, c.Args[0]) {
+					return true
+				}
+				// the order looks at the assignments of the options
+				if lit, ok := c.Args[1].(*ast.FuncLit); ok {
+					ast.Inspect(lit.Body, func(k ast.Node) bool {
+						if c2, ok := k.(*ast.CallExpr); ok {
+							if f2 := callee(info, c2); f2 != nil {
+								if fd2, _ := ctx.DeclOf(f2); fd2 != nil && fd2.Body != nil {
+									readsAssignments, readsArgument := false, false
+									ast.Inspect(fd2.Body, func(q ast.Node) bool {
+										if sel, ok := q.(*ast.SelectorExpr); ok {
+											readsAssignments = readsAssignments || sel.Sel.Name == "Assignments"
+											readsArgument = readsArgument || sel.Sel.Name == "Argument"
+										}
+										return true
+									})
+									if readsAssignments && readsArgument {
+										ordered = true
+									}
+								}
+							}
+						}
+						return true
+					})
+				}
+				return true
+			})
+			n++
+			r.Check(ordered, "order/spreading-options-first", "languages.ConverterGenerator.FromBuilder orders the options", fd.Pos(), "the options are converted in an order computed from the arguments their assignments read",
+				"FromBuilder converts the options in declaration order: an option that spreads its argument over two paths (Name writes name and title) declared after the option that writes one of them (Title) is called last and overwrites it — {\"title\":\"b\",\"name\":\"a\"} is rebuilt with title \"a\"")
+		}
+	}
+	r.Count("hunted clauses of the converter generator (5th round)", n)
+	r.Floor("hunted clauses of the converter generator (5th round)", 5)
 }
